@@ -539,6 +539,7 @@ theorem stepTh_threads (kit : Kit N) (c : Cfg N) (th : Thread N) : (stepTh kit c
   · split <;> rfl
   · split <;> rfl
   · split <;> rfl
+  · split <;> rfl
 
 theorem abs_step (kit : Kit N) (c : Cfg N) (i : Nat) (th : Thread N) (h : c.threads[i]? = some th) :
     (step kit c i).abs =
@@ -587,6 +588,7 @@ theorem beginOp_view (c : Cfg N) (th : Thread N) (op : Op N) (rest : List (Op N)
         exact ⟨h1, h2, fun h hm => Or.inr hm⟩
   | setMetrics => simp [beginOp, Thread.view, PC.resv, PC.held]; exact fun h hm => Or.inr hm
   | takeMetrics => simp [beginOp, Thread.view, PC.resv, PC.held]; exact fun h hm => Or.inr hm
+  | getMetrics => simp [beginOp, Thread.view, PC.resv, PC.held]; exact fun h hm => Or.inr hm
   | collect x =>
     simp only [beginOp]
     cases hr : resolve c.pool th.own x with
@@ -634,7 +636,7 @@ theorem step_refines (kit : Kit N) (c : Cfg N) (i : Nat) (inv : AInv c.abs) :
       refine AStep.insert c.abs i th.view _ n hv (by simp [Thread.view, hpc, PC.resv, insertNode, Cfg.abs]) ?_
       intro h hm
       simpa [Thread.view, PC.held, hpc] using hm
-    | drvCon p m k =>
+    | drvCon p m k n =>
       simp only [stepTh, hpc, publish]
       refine AStep.connectPub c.abs i th.view _ p m hv (by simp [Thread.view, hpc, PC.resv])
         (Or.inl (by simp [Thread.view, hpc, PC.held])) ?_ (by simp [Thread.view, Thread.finishBuilt, PC.resv]) ?_
@@ -669,20 +671,20 @@ theorem step_refines (kit : Kit N) (c : Cfg N) (i : Nat) (inv : AInv c.abs) :
         intro h hm
         simp [Thread.view, PC.held] at hm
         simp [Thread.view, hm]
-    | joinInsD tag lc rc =>
+    | joinInsD l r tag lc rc =>
       simp only [stepTh, hpc]
       refine AStep.insert c.abs i th.view _ kit.dummy hv (by simp [Thread.view, hpc, PC.resv, insertNode, Cfg.abs]) ?_
       intro h hm
       simp [Thread.view, PC.held] at hm
       simp [Thread.view, hm]
-    | joinInsG d tag lc rc =>
+    | joinInsG l r d tag lc rc =>
       simp only [stepTh, hpc]
       refine AStep.insert c.abs i th.view _ (kit.cogroup tag lc rc) hv
         (by simp [Thread.view, hpc, PC.resv, insertNode, Cfg.abs]) ?_
       intro h hm
       simp [Thread.view, PC.held] at hm
       simp [Thread.view, hm]
-    | joinCon d g =>
+    | joinCon l r d g tag lc rc =>
       simp only [stepTh, hpc, publish]
       refine AStep.connectPub c.abs i th.view _ d g hv (by simp [Thread.view, hpc, PC.resv])
         (Or.inr (by simp [Thread.view, hpc, PC.resv])) ?_ (by simp [Thread.view, Thread.finishBuilt, PC.resv]) ?_
@@ -701,9 +703,16 @@ theorem step_refines (kit : Kit N) (c : Cfg N) (i : Nat) (inv : AInv c.abs) :
       simpa [Thread.view, PC.held, hpc] using hm
     | colSnap x =>
       simp only [stepTh, hpc]
-      refine AStep.tau c.abs i th.view _ hv (by simp [Thread.view, hpc, PC.resv]) ?_
-      intro h hm
-      simpa [Thread.view, PC.held, hpc] using hm
+      cases backwalk c.g x with
+      | none =>
+        refine AStep.tau c.abs i th.view _ hv (by simp [Thread.view, Thread.finish, hpc, PC.resv]) ?_
+        intro h hm
+        simp [Thread.view, Thread.finish, PC.held] at hm
+        simp [Thread.view, hm]
+      | some ch =>
+        refine AStep.tau c.abs i th.view _ hv (by simp [Thread.view, hpc, PC.resv]) ?_
+        intro h hm
+        simpa [Thread.view, PC.held, hpc] using hm
     | colEnd x ch =>
       simp only [stepTh, hpc]
       refine AStep.tau c.abs i th.view _ hv (by simp [Thread.view, Thread.finish, hpc, PC.resv]) ?_
@@ -717,6 +726,12 @@ theorem step_refines (kit : Kit N) (c : Cfg N) (i : Nat) (inv : AInv c.abs) :
       simp [Thread.view, Thread.finish, PC.held] at hm
       simp [Thread.view, hm]
     | metTake =>
+      simp only [stepTh, hpc]
+      refine AStep.tau c.abs i th.view _ hv (by simp [Thread.view, Thread.finish, hpc, PC.resv]) ?_
+      intro h hm
+      simp [Thread.view, Thread.finish, PC.held] at hm
+      simp [Thread.view, hm]
+    | metGet =>
       simp only [stepTh, hpc]
       refine AStep.tau c.abs i th.view _ hv (by simp [Thread.view, Thread.finish, hpc, PC.resv]) ?_
       intro h hm
@@ -748,12 +763,14 @@ structure GInv (c : Cfg N) : Prop where
   outs : ∀ (j : Nat) (th : Thread N), c.threads[j]? = some th →
     ∀ x ch, Outcome.collected x ch ∈ th.outs → (x, ch) ∈ c.born
   pcCol : ∀ (j : Nat) (th : Thread N), c.threads[j]? = some th →
-    ∀ x ch, th.pc = .colEnd x ch → (x, ch) ∈ c.born
+    ∀ x ch, th.pc = .colEnd x ch → (x, some ch) ∈ c.born
   pcJoinL : ∀ (j : Nat) (th : Thread N), c.threads[j]? = some th →
     ∀ l r tag lc, th.pc = .joinSnapR l r tag lc → (l, some lc) ∈ c.born
+  /-- from the second snapshot on, a join holds the born chains of ITS OWN operands `l`, `r` -/
   pcJoin : ∀ (j : Nat) (th : Thread N), c.threads[j]? = some th →
-    ∀ tag lc rc, (th.pc = .joinInsD tag lc rc ∨ ∃ d, th.pc = .joinInsG d tag lc rc) →
-      ∃ l r, (l, some lc) ∈ c.born ∧ (r, some rc) ∈ c.born
+    ∀ l r tag lc rc, (th.pc = .joinInsD l r tag lc rc ∨ (∃ d, th.pc = .joinInsG l r d tag lc rc) ∨
+        (∃ d g, th.pc = .joinCon l r d g tag lc rc)) →
+      (l, some lc) ∈ c.born ∧ (r, some rc) ∈ c.born
 
 theorem ginv_init (progs : List (List (Op N))) : GInv (Cfg.init progs) := by
   have hth : ∀ (j : Nat) (th : Thread N), (Cfg.init progs).threads[j]? = some th → th.pc = .idle ∧ th.outs = [] := by
@@ -766,38 +783,41 @@ theorem ginv_init (progs : List (List (Op N))) : GInv (Cfg.init progs) := by
   · intro j th h x ch hm; rw [(hth j th h).2] at hm; simp at hm
   · intro j th h x ch hp; rw [(hth j th h).1] at hp; cases hp
   · intro j th h l r tag lc hp; rw [(hth j th h).1] at hp; cases hp
-  · intro j th h tag lc rc hp
+  · intro j th h l r tag lc rc hp
     rw [(hth j th h).1] at hp
-    rcases hp with hp | ⟨d, hp⟩ <;> cases hp
+    rcases hp with hp | ⟨d, hp⟩ | ⟨d, g, hp⟩ <;> cases hp
 
 /-- how a step changes the ghost `born` list and the pool -/
 theorem stepTh_born_shape (kit : Kit N) (c : Cfg N) (th : Thread N) :
     ((stepTh kit c th).1.born = c.born ∧ (stepTh kit c th).1.pool = c.pool) ∨
     (∃ x, (stepTh kit c th).1.born = c.born ++ [(x, backwalk (stepTh kit c th).1.g x)] ∧
           (stepTh kit c th).1.pool = c.pool ++ [x]) := by
-  unfold stepTh
-  split
-  · split <;> simp
-  · right; exact ⟨_, rfl, rfl⟩
-  · simp
-  · right; exact ⟨_, rfl, rfl⟩
-  · split <;> simp
-  · split <;> simp
-  · simp
-  · simp
-  · right; exact ⟨_, rfl, rfl⟩
-  · simp
-  · simp
-  · simp
-  · simp
-  · simp
+  cases hpc : th.pc with
+  | idle => cases htd : th.todo <;> simp [stepTh, hpc, htd]
+  | srcIns n => right; simp only [stepTh, hpc]; exact ⟨_, rfl, rfl⟩
+  | drvIns p k n => simp [stepTh, hpc]
+  | drvCon p m k n => right; simp only [stepTh, hpc]; exact ⟨_, rfl, rfl⟩
+  | joinSnapL l r tag => simp only [stepTh, hpc]; split <;> simp
+  | joinSnapR l r tag lc => simp only [stepTh, hpc]; split <;> simp
+  | joinInsD l r tag lc rc => simp [stepTh, hpc]
+  | joinInsG l r d tag lc rc => simp [stepTh, hpc]
+  | joinCon l r d g tag lc rc => right; simp only [stepTh, hpc]; exact ⟨_, rfl, rfl⟩
+  | colStart x => simp [stepTh, hpc]
+  | colSnap x => simp only [stepTh, hpc]; split <;> simp
+  | colEnd x ch => simp [stepTh, hpc]
+  | metSet => simp [stepTh, hpc]
+  | metTake => simp [stepTh, hpc]
+  | metGet => simp [stepTh, hpc]
 
+/-- `begin` adds no outcome of a collect and never lands inside a builder or at the end of a collect -/
 theorem beginOp_thread (c : Cfg N) (th : Thread N) (op : Op N) (rest : List (Op N)) :
     (∀ x ch, Outcome.collected x ch ∈ (beginOp c th op rest).outs → Outcome.collected x ch ∈ th.outs) ∧
     (∀ x ch, (beginOp c th op rest).pc ≠ .colEnd x ch) ∧
     (∀ l r tag lc, (beginOp c th op rest).pc ≠ .joinSnapR l r tag lc) ∧
-    (∀ tag lc rc, (beginOp c th op rest).pc ≠ .joinInsD tag lc rc) ∧
-    (∀ d tag lc rc, (beginOp c th op rest).pc ≠ .joinInsG d tag lc rc) := by
+    (∀ l r tag lc rc, (beginOp c th op rest).pc ≠ .joinInsD l r tag lc rc) ∧
+    (∀ l r d tag lc rc, (beginOp c th op rest).pc ≠ .joinInsG l r d tag lc rc) ∧
+    (∀ l r d g tag lc rc, (beginOp c th op rest).pc ≠ .joinCon l r d g tag lc rc) ∧
+    (∀ p m k n, (beginOp c th op rest).pc ≠ .drvCon p m k n) := by
   cases op with
   | source n => simp [beginOp]
   | derive p sig n => cases sig <;> (simp only [beginOp]; split <;> simp [Thread.finish])
@@ -805,47 +825,53 @@ theorem beginOp_thread (c : Cfg N) (th : Thread N) (op : Op N) (rest : List (Op 
   | collect x => simp only [beginOp]; split <;> simp [Thread.finish]
   | setMetrics => simp [beginOp]
   | takeMetrics => simp [beginOp]
+  | getMetrics => simp [beginOp]
 
-/-- what the stepping thread's new outcomes / program counter can be -/
-theorem stepTh_thread (kit : Kit N) (c : Cfg N) (th : Thread N) :
-    (∀ x ch, Outcome.collected x ch ∈ (stepTh kit c th).2.outs →
-        Outcome.collected x ch ∈ th.outs ∨ th.pc = .colEnd x ch) ∧
-    (∀ x ch, (stepTh kit c th).2.pc = .colEnd x ch → th.pc = .colSnap x ∧ ch = backwalk c.g x) ∧
-    (∀ l r tag lc, (stepTh kit c th).2.pc = .joinSnapR l r tag lc → th.pc = .joinSnapL l r tag ∧ backwalk c.g l = some lc) ∧
-    (∀ tag lc rc, (stepTh kit c th).2.pc = .joinInsD tag lc rc →
-        ∃ l r, th.pc = .joinSnapR l r tag lc ∧ backwalk c.g r = some rc) ∧
-    (∀ d tag lc rc, (stepTh kit c th).2.pc = .joinInsG d tag lc rc → th.pc = .joinInsD tag lc rc) := by
-  unfold stepTh
-  split
-  · split
-    · simp_all
-    · have := beginOp_thread c th ‹Op N› ‹List (Op N)›
-      simp_all
-  · simp_all [Thread.finishBuilt]
-  · simp_all
-  · simp_all [Thread.finishBuilt]
-  · split
-    · simp_all
-      intro l r tag lc h1 h2 h3 h4
-      subst h1 h2 h3 h4
-      assumption
-    · simp_all [Thread.finish]
-  · split
-    · simp_all
-      exact ⟨_, _, ⟨rfl, rfl⟩, by assumption⟩
-    · simp_all [Thread.finish]
-  · simp_all
-  · simp_all
-  · simp_all [Thread.finishBuilt]
-  · simp_all
-  · simp_all
-  · simp_all [Thread.finish]
-    intro x ch h
-    rcases h with h | ⟨rfl, rfl⟩
-    · exact Or.inl h
-    · exact Or.inr ⟨rfl, rfl⟩
-  · simp_all [Thread.finish]
-  · simp_all [Thread.finish]
+/-- what the stepping thread's new outcomes / program counter can be (where it came from) -/
+structure StepFacts (c : Cfg N) (th th' : Thread N) : Prop where
+  outs : ∀ x ch, Outcome.collected x ch ∈ th'.outs →
+    Outcome.collected x ch ∈ th.outs ∨ (∃ l, th.pc = .colEnd x l ∧ ch = some l) ∨
+      (th.pc = .colSnap x ∧ ch = none ∧ backwalk c.g x = none)
+  col : ∀ x ch, th'.pc = .colEnd x ch → th.pc = .colSnap x ∧ backwalk c.g x = some ch
+  joinR : ∀ l r tag lc, th'.pc = .joinSnapR l r tag lc → th.pc = .joinSnapL l r tag ∧ backwalk c.g l = some lc
+  joinD : ∀ l r tag lc rc, th'.pc = .joinInsD l r tag lc rc → th.pc = .joinSnapR l r tag lc ∧ backwalk c.g r = some rc
+  joinG : ∀ l r d tag lc rc, th'.pc = .joinInsG l r d tag lc rc → th.pc = .joinInsD l r tag lc rc ∧ d = c.g.nextId
+  joinC : ∀ l r d g tag lc rc, th'.pc = .joinCon l r d g tag lc rc → th.pc = .joinInsG l r d tag lc rc ∧ g = c.g.nextId
+  drvC : ∀ p m k n, th'.pc = .drvCon p m k n → th.pc = .drvIns p k n ∧ m = c.g.nextId
+
+theorem stepTh_thread (kit : Kit N) (c : Cfg N) (th : Thread N) : StepFacts c th (stepTh kit c th).2 := by
+  cases hpc : th.pc with
+  | idle =>
+    cases htd : th.todo with
+    | nil => constructor <;> simp_all [stepTh]
+    | cons op rest =>
+      have hb := beginOp_thread c th op rest
+      simp only [stepTh, hpc, htd]
+      exact ⟨fun x ch h => Or.inl (hb.1 x ch h), fun x ch h => absurd h (hb.2.1 x ch),
+        fun l r tag lc h => absurd h (hb.2.2.1 l r tag lc), fun l r tag lc rc h => absurd h (hb.2.2.2.1 l r tag lc rc),
+        fun l r d tag lc rc h => absurd h (hb.2.2.2.2.1 l r d tag lc rc),
+        fun l r d g tag lc rc h => absurd h (hb.2.2.2.2.2.1 l r d g tag lc rc),
+        fun p m k n h => absurd h (hb.2.2.2.2.2.2 p m k n)⟩
+  | srcIns n => constructor <;> simp_all [stepTh, Thread.finishBuilt]
+  | drvIns p k n => constructor <;> simp_all [stepTh, insertNode]
+  | drvCon p m k n => constructor <;> simp_all [stepTh, Thread.finishBuilt]
+  | joinSnapL l r tag =>
+    simp only [stepTh, hpc]
+    cases hb : backwalk c.g l <;> constructor <;> (try simp_all [Thread.finish]) <;> (try grind)
+  | joinSnapR l r tag lc =>
+    simp only [stepTh, hpc]
+    cases hb : backwalk c.g r <;> constructor <;> (try simp_all [Thread.finish]) <;> (try grind)
+  | joinInsD l r tag lc rc => constructor <;> simp_all [stepTh, insertNode]
+  | joinInsG l r d tag lc rc => constructor <;> simp_all [stepTh, insertNode]
+  | joinCon l r d g tag lc rc => constructor <;> simp_all [stepTh, Thread.finishBuilt]
+  | colStart x => constructor <;> simp_all [stepTh]
+  | colSnap x =>
+    simp only [stepTh, hpc]
+    cases hb : backwalk c.g x <;> constructor <;> (try simp_all [Thread.finish]) <;> (try grind)
+  | colEnd x ch => constructor <;> (try simp_all [stepTh, Thread.finish]) <;> (try grind)
+  | metSet => constructor <;> simp_all [stepTh, Thread.finish]
+  | metTake => constructor <;> simp_all [stepTh, Thread.finish]
+  | metGet => constructor <;> simp_all [stepTh, Thread.finish]
 
 theorem ginv_step (kit : Kit N) (c : Cfg N) (i : Nat) (inv : AInv c.abs) (gi : GInv c) :
     GInv (step kit c i) := by
@@ -907,37 +933,45 @@ theorem ginv_step (kit : Kit N) (c : Cfg N) (i : Nat) (inv : AInv c.abs) (gi : G
     · intro j w hj x ch hm
       rw [hts] at hj
       rcases getElem?_set_cases hj with ⟨_, rfl⟩ | ⟨_, hj'⟩
-      · rcases hTh.1 x ch hm with h1 | h1
+      · rcases hTh.outs x ch hm with h1 | ⟨l, h1, rfl⟩ | ⟨h1, rfl, h2⟩
         · exact hbmono _ (gi.outs i th hth x ch h1)
-        · exact hbmono _ (gi.pcCol i th hth x ch h1)
+        · exact hbmono _ (gi.pcCol i th hth x l h1)
+        · have := hcur x (hheld x (by simp [h1, PC.held]))
+          rw [h2] at this
+          exact hbmono _ this
       · exact hbmono _ (gi.outs j w hj' x ch hm)
     · intro j w hj x ch hpc
       rw [hts] at hj
       rcases getElem?_set_cases hj with ⟨_, rfl⟩ | ⟨_, hj'⟩
-      · rcases hTh.2.1 x ch hpc with ⟨h1, rfl⟩
-        exact hbmono _ (hcur x (hheld x (by simp [h1, PC.held])))
+      · rcases hTh.col x ch hpc with ⟨h1, h2⟩
+        have := hcur x (hheld x (by simp [h1, PC.held]))
+        rw [h2] at this
+        exact hbmono _ this
       · exact hbmono _ (gi.pcCol j w hj' x ch hpc)
     · intro j w hj l r tag lc hpc
       rw [hts] at hj
       rcases getElem?_set_cases hj with ⟨_, rfl⟩ | ⟨_, hj'⟩
-      · rcases hTh.2.2.1 l r tag lc hpc with ⟨h1, h2⟩
+      · rcases hTh.joinR l r tag lc hpc with ⟨h1, h2⟩
         have := hcur l (hheld l (by simp [h1, PC.held]))
         rw [h2] at this
         exact hbmono _ this
       · exact hbmono _ (gi.pcJoinL j w hj' l r tag lc hpc)
-    · intro j w hj tag lc rc hpc
+    · intro j w hj l r tag lc rc hpc
       rw [hts] at hj
       rcases getElem?_set_cases hj with ⟨_, rfl⟩ | ⟨_, hj'⟩
-      · rcases hpc with hpc | ⟨d, hpc⟩
-        · rcases hTh.2.2.2.1 tag lc rc hpc with ⟨l, r, h1, h2⟩
+      · rcases hpc with hpc | ⟨d, hpc⟩ | ⟨d, g, hpc⟩
+        · rcases hTh.joinD l r tag lc rc hpc with ⟨h1, h2⟩
           have hr := hcur r (hheld r (by simp [h1, PC.held]))
           rw [h2] at hr
-          exact ⟨l, r, hbmono _ (gi.pcJoinL i th hth l r tag lc h1), hbmono _ hr⟩
-        · have h1 := hTh.2.2.2.2 d tag lc rc hpc
-          rcases gi.pcJoin i th hth tag lc rc (Or.inl h1) with ⟨l, r, h2, h3⟩
-          exact ⟨l, r, hbmono _ h2, hbmono _ h3⟩
-      · rcases gi.pcJoin j w hj' tag lc rc hpc with ⟨l, r, h2, h3⟩
-        exact ⟨l, r, hbmono _ h2, hbmono _ h3⟩
+          exact ⟨hbmono _ (gi.pcJoinL i th hth l r tag lc h1), hbmono _ hr⟩
+        · have h1 := (hTh.joinG l r d tag lc rc hpc).1
+          have := gi.pcJoin i th hth l r tag lc rc (Or.inl h1)
+          exact ⟨hbmono _ this.1, hbmono _ this.2⟩
+        · have h1 := (hTh.joinC l r d g tag lc rc hpc).1
+          have := gi.pcJoin i th hth l r tag lc rc (Or.inr (Or.inl ⟨d, h1⟩))
+          exact ⟨hbmono _ this.1, hbmono _ this.2⟩
+      · have := gi.pcJoin j w hj' l r tag lc rc hpc
+        exact ⟨hbmono _ this.1, hbmono _ this.2⟩
 
 theorem ginv_run (kit : Kit N) (sched : List Nat) :
     ∀ (c : Cfg N), AInv c.abs → GInv c → GInv (run kit c sched) := by
@@ -977,50 +1011,55 @@ theorem beginOp_calls (c : Cfg N) (th : Thread N) (op : Op N) (rest : List (Op N
   | collect x => simp only [beginOp]; split <;> simp [Thread.finish, Outcome.ran]
   | setMetrics => simp [beginOp]
   | takeMetrics => simp [beginOp]
+  | getMetrics => simp [beginOp]
 
 /-- **a step that is not the end of a collect runs no user code**: the stepping thread's trace is unchanged -/
 theorem stepTh_calls_build (kit : Kit N) (c : Cfg N) (th : Thread N) (h : ∀ x ch, th.pc ≠ .colEnd x ch) :
     (stepTh kit c th).2.calls = th.calls := by
-  unfold stepTh
-  split
-  · split
-    · rfl
-    · exact (beginOp_calls c th _ _).1
-  · simp [Thread.finishBuilt]
-  · simp
-  · simp [Thread.finishBuilt]
-  · split <;> simp [Thread.finish]
-  · split <;> simp [Thread.finish]
-  · simp
-  · simp
-  · simp [Thread.finishBuilt]
-  · simp
-  · simp
-  · next x ch hpc => exact absurd hpc (h x ch)
-  · simp [Thread.finish]
-  · simp [Thread.finish]
+  cases hpc : th.pc with
+  | idle =>
+    cases htd : th.todo with
+    | nil => simp [stepTh, hpc, htd]
+    | cons op rest => simp only [stepTh, hpc, htd]; exact (beginOp_calls c th _ _).1
+  | srcIns n => simp [stepTh, hpc, Thread.finishBuilt]
+  | drvIns p k n => simp [stepTh, hpc]
+  | drvCon p m k n => simp [stepTh, hpc, Thread.finishBuilt]
+  | joinSnapL l r tag => simp only [stepTh, hpc]; split <;> simp [Thread.finish]
+  | joinSnapR l r tag lc => simp only [stepTh, hpc]; split <;> simp [Thread.finish]
+  | joinInsD l r tag lc rc => simp [stepTh, hpc]
+  | joinInsG l r d tag lc rc => simp [stepTh, hpc]
+  | joinCon l r d g tag lc rc => simp [stepTh, hpc, Thread.finishBuilt]
+  | colStart x => simp [stepTh, hpc]
+  | colSnap x => simp only [stepTh, hpc]; split <;> simp [Thread.finish]
+  | colEnd x ch => exact absurd hpc (h x ch)
+  | metSet => simp [stepTh, hpc, Thread.finish]
+  | metTake => simp [stepTh, hpc, Thread.finish]
+  | metGet => simp [stepTh, hpc, Thread.finish]
 
 /-- the trace is exactly the chains of the finished collects, in order -/
 theorem stepTh_calls_inv (kit : Kit N) (c : Cfg N) (th : Thread N) (h : th.calls = th.outs.flatMap Outcome.ran) :
     (stepTh kit c th).2.calls = (stepTh kit c th).2.outs.flatMap Outcome.ran := by
-  unfold stepTh
-  split
-  · split
-    · exact h
-    · rw [(beginOp_calls c th _ _).1, (beginOp_calls c th _ _).2]; exact h
-  · simp [Thread.finishBuilt, Outcome.ran, h]
-  · simpa using h
-  · simp [Thread.finishBuilt, Outcome.ran, h]
-  · split <;> simp [Thread.finish, Outcome.ran, h]
-  · split <;> simp [Thread.finish, Outcome.ran, h]
-  · simpa using h
-  · simpa using h
-  · simp [Thread.finishBuilt, Outcome.ran, h]
-  · simpa using h
-  · simpa using h
-  · simp [Thread.finish, Outcome.ran, h]
-  · simp [Thread.finish, Outcome.ran, h]
-  · simp [Thread.finish, Outcome.ran, h]
+  cases hpc : th.pc with
+  | idle =>
+    cases htd : th.todo with
+    | nil => simpa [stepTh, hpc, htd] using h
+    | cons op rest =>
+      simp only [stepTh, hpc, htd]
+      rw [(beginOp_calls c th _ _).1, (beginOp_calls c th _ _).2]; exact h
+  | srcIns n => simp [stepTh, hpc, Thread.finishBuilt, Outcome.ran, h]
+  | drvIns p k n => simpa [stepTh, hpc] using h
+  | drvCon p m k n => simp [stepTh, hpc, Thread.finishBuilt, Outcome.ran, h]
+  | joinSnapL l r tag => simp only [stepTh, hpc]; split <;> simp [Thread.finish, Outcome.ran, h]
+  | joinSnapR l r tag lc => simp only [stepTh, hpc]; split <;> simp [Thread.finish, Outcome.ran, h]
+  | joinInsD l r tag lc rc => simpa [stepTh, hpc] using h
+  | joinInsG l r d tag lc rc => simpa [stepTh, hpc] using h
+  | joinCon l r d g tag lc rc => simp [stepTh, hpc, Thread.finishBuilt, Outcome.ran, h]
+  | colStart x => simpa [stepTh, hpc] using h
+  | colSnap x => simp only [stepTh, hpc]; split <;> simp [Thread.finish, Outcome.ran, h]
+  | colEnd x ch => simp [stepTh, hpc, Thread.finish, Outcome.ran, h]
+  | metSet => simp [stepTh, hpc, Thread.finish, Outcome.ran, h]
+  | metTake => simp [stepTh, hpc, Thread.finish, Outcome.ran, h]
+  | metGet => simp [stepTh, hpc, Thread.finish, Outcome.ran, h]
 
 /-- invariant: every thread's trace of user-code runs = the chains of its finished collects -/
 def CInv (c : Cfg N) : Prop :=
@@ -1081,36 +1120,49 @@ theorem beginOp_nocol (c : Cfg N) (th : Thread N) (op : Op N) (rest : List (Op N
   | collect x => simp [Op.isCollect] at hop
   | setMetrics => simp [beginOp, PC.inCollect, hpc]
   | takeMetrics => simp [beginOp, PC.inCollect, hpc]
+  | getMetrics => simp [beginOp, PC.inCollect, hpc]
 
 theorem stepTh_nocol (kit : Kit N) (c : Cfg N) (th : Thread N) (h : NoCol th) : NoCol (stepTh kit c th).2 := by
   have h1 := h.todo
   have h2 := h.pc
   have h3 := h.calls
-  unfold stepTh
-  split
-  · split
-    · exact h
-    · next op rest htd =>
+  have fin : ∀ o : Outcome N, NoCol (th.finish o) := fun o =>
+    ⟨by simpa [Thread.finish] using h1, by simp [Thread.finish, PC.inCollect], by simpa [Thread.finish] using h3⟩
+  have finB : ∀ id : Nat, NoCol (th.finishBuilt id) := fun id =>
+    ⟨by simpa [Thread.finishBuilt] using h1, by simp [Thread.finishBuilt, PC.inCollect], by simpa [Thread.finishBuilt] using h3⟩
+  have setpc : ∀ pc : PC N, pc.inCollect = false → NoCol { th with pc := pc } := fun pc hp =>
+    ⟨by simpa using h1, hp, by simpa using h3⟩
+  cases hpc : th.pc with
+  | idle =>
+    cases htd : th.todo with
+    | nil => simp only [stepTh, hpc, htd]; exact h
+    | cons op rest =>
+      simp only [stepTh, hpc, htd]
       rw [htd] at h1
       have hb := beginOp_nocol c th op rest (h1 op (by simp)) h3
       exact ⟨by rw [hb.2.2]; exact fun o ho => h1 o (by simp [ho]), hb.1, hb.2.1⟩
-  · exact ⟨by simpa [Thread.finishBuilt] using h1, by simp [Thread.finishBuilt, PC.inCollect], by simpa [Thread.finishBuilt] using h3⟩
-  · exact ⟨by simpa using h1, by simp [PC.inCollect], by simpa using h3⟩
-  · exact ⟨by simpa [Thread.finishBuilt] using h1, by simp [Thread.finishBuilt, PC.inCollect], by simpa [Thread.finishBuilt] using h3⟩
-  · split
-    · exact ⟨by simpa using h1, by simp [PC.inCollect], by simpa using h3⟩
-    · exact ⟨by simpa [Thread.finish] using h1, by simp [Thread.finish, PC.inCollect], by simpa [Thread.finish] using h3⟩
-  · split
-    · exact ⟨by simpa using h1, by simp [PC.inCollect], by simpa using h3⟩
-    · exact ⟨by simpa [Thread.finish] using h1, by simp [Thread.finish, PC.inCollect], by simpa [Thread.finish] using h3⟩
-  · exact ⟨by simpa using h1, by simp [PC.inCollect], by simpa using h3⟩
-  · exact ⟨by simpa using h1, by simp [PC.inCollect], by simpa using h3⟩
-  · exact ⟨by simpa [Thread.finishBuilt] using h1, by simp [Thread.finishBuilt, PC.inCollect], by simpa [Thread.finishBuilt] using h3⟩
-  · next hpc => rw [hpc] at h2; simp [PC.inCollect] at h2
-  · next hpc => rw [hpc] at h2; simp [PC.inCollect] at h2
-  · next hpc => rw [hpc] at h2; simp [PC.inCollect] at h2
-  · exact ⟨by simpa [Thread.finish] using h1, by simp [Thread.finish, PC.inCollect], by simpa [Thread.finish] using h3⟩
-  · exact ⟨by simpa [Thread.finish] using h1, by simp [Thread.finish, PC.inCollect], by simpa [Thread.finish] using h3⟩
+  | srcIns n => simp only [stepTh, hpc]; exact finB _
+  | drvIns p k n => simp only [stepTh, hpc]; exact setpc _ (by simp [PC.inCollect])
+  | drvCon p m k n => simp only [stepTh, hpc]; exact finB _
+  | joinSnapL l r tag =>
+    simp only [stepTh, hpc]
+    split
+    · exact setpc _ (by simp [PC.inCollect])
+    · exact fin _
+  | joinSnapR l r tag lc =>
+    simp only [stepTh, hpc]
+    split
+    · exact setpc _ (by simp [PC.inCollect])
+    · exact fin _
+  | joinInsD l r tag lc rc => simp only [stepTh, hpc]; exact setpc _ (by simp [PC.inCollect])
+  | joinInsG l r d tag lc rc => simp only [stepTh, hpc]; exact setpc _ (by simp [PC.inCollect])
+  | joinCon l r d g tag lc rc => simp only [stepTh, hpc]; exact finB _
+  | colStart x => rw [hpc] at h2; simp [PC.inCollect] at h2
+  | colSnap x => rw [hpc] at h2; simp [PC.inCollect] at h2
+  | colEnd x ch => rw [hpc] at h2; simp [PC.inCollect] at h2
+  | metSet => simp only [stepTh, hpc]; exact fin _
+  | metTake => simp only [stepTh, hpc]; exact fin _
+  | metGet => simp only [stepTh, hpc]; exact fin _
 
 theorem nocol_step (kit : Kit N) (c : Cfg N) (i : Nat) (h : ∀ th ∈ c.threads, NoCol th) :
     ∀ th ∈ (step kit c i).threads, NoCol th := by
@@ -1279,5 +1331,131 @@ theorem lookupNode_append_found (ns ms : List (Nat × N)) (k : Nat) (n : N) (h :
   cases hf : ns.find? (fun p => p.1 == k) with
   | none => simp [hf] at h
   | some p => simp [hf] at h ⊢; exact h
+
+/-! ## payload invariant: what a builder has inserted is stored under the id it holds -/
+
+theorem lookup_insertNode {a : ACfg N} (inv : AInv a) (n : N) :
+    lookupNode (insertNode a.g n).1.nodes a.g.nextId = some n := by
+  rw [insertNode_fst a.g n inv.ids]
+  apply lookupNode_append_last
+  intro p hp hk
+  have : p.1 ∈ a.g.nodes.map Prod.fst := List.mem_map_of_mem hp
+  rw [inv.ids] at this
+  have := List.mem_range.mp this
+  omega
+
+/-- between its `insert_node`s and its `connect`, a builder's own nodes hold exactly what it put there: the derive's
+    payload `n`; the join's dummy source and `CoGroup(tag, lc, rc)` -/
+structure PInv (kit : Kit N) (c : Cfg N) : Prop where
+  drv : ∀ (j : Nat) (th : Thread N), c.threads[j]? = some th →
+    ∀ p m k n, th.pc = .drvCon p m k n → lookupNode c.g.nodes m = some n
+  jG : ∀ (j : Nat) (th : Thread N), c.threads[j]? = some th →
+    ∀ l r d tag lc rc, th.pc = .joinInsG l r d tag lc rc → lookupNode c.g.nodes d = some kit.dummy
+  jC : ∀ (j : Nat) (th : Thread N), c.threads[j]? = some th →
+    ∀ l r d g tag lc rc, th.pc = .joinCon l r d g tag lc rc →
+      lookupNode c.g.nodes d = some kit.dummy ∧ lookupNode c.g.nodes g = some (kit.cogroup tag lc rc)
+
+theorem pinv_init (kit : Kit N) (progs : List (List (Op N))) : PInv kit (Cfg.init progs) := by
+  have hth : ∀ (j : Nat) (th : Thread N), (Cfg.init progs).threads[j]? = some th → th.pc = .idle := by
+    intro j th h
+    have := List.mem_of_getElem? h
+    simp only [Cfg.init, List.mem_map] at this
+    rcases this with ⟨p, _, rfl⟩
+    simp
+  refine ⟨?_, ?_, ?_⟩
+  · intro j th h p m k n hp; rw [hth j th h] at hp; cases hp
+  · intro j th h l r d tag lc rc hp; rw [hth j th h] at hp; cases hp
+  · intro j th h l r d g tag lc rc hp; rw [hth j th h] at hp; cases hp
+
+theorem pinv_step (kit : Kit N) (c : Cfg N) (i : Nat) (inv : AInv c.abs) (pi : PInv kit c) :
+    PInv kit (step kit c i) := by
+  have hst := step_refines kit c i inv
+  rcases graph_grows_step inv hst with ⟨ns, _, hns, _⟩
+  have hkeep : ∀ k n, lookupNode c.g.nodes k = some n → lookupNode (step kit c i).g.nodes k = some n := by
+    intro k n hk
+    have : (step kit c i).g.nodes = c.g.nodes ++ ns := hns
+    rw [this]; exact lookupNode_append_found _ _ _ _ hk
+  cases hth : c.threads[i]? with
+  | none => simp only [step, hth]; exact pi
+  | some th =>
+    have hg : (step kit c i).g = (stepTh kit c th).1.g := by simp [step, hth]
+    have hts : (step kit c i).threads = c.threads.set i (stepTh kit c th).2 := by
+      simp [step, hth, stepTh_threads]
+    have hTh := stepTh_thread kit c th
+    have hins : ∀ n : N, lookupNode (insertNode c.g n).1.nodes c.g.nextId = some n :=
+      fun n => lookup_insertNode (a := c.abs) inv n
+    refine ⟨?_, ?_, ?_⟩
+    · intro j w hj p m k n hpc
+      rw [hts] at hj
+      rcases getElem?_set_cases hj with ⟨_, rfl⟩ | ⟨_, hj'⟩
+      · rcases hTh.drvC p m k n hpc with ⟨h1, rfl⟩
+        rw [hg]; simp only [stepTh, h1]; exact hins n
+      · exact hkeep _ _ (pi.drv j w hj' p m k n hpc)
+    · intro j w hj l r d tag lc rc hpc
+      rw [hts] at hj
+      rcases getElem?_set_cases hj with ⟨_, rfl⟩ | ⟨_, hj'⟩
+      · rcases hTh.joinG l r d tag lc rc hpc with ⟨h1, rfl⟩
+        rw [hg]; simp only [stepTh, h1]; exact hins kit.dummy
+      · exact hkeep _ _ (pi.jG j w hj' l r d tag lc rc hpc)
+    · intro j w hj l r d g tag lc rc hpc
+      rw [hts] at hj
+      rcases getElem?_set_cases hj with ⟨_, rfl⟩ | ⟨_, hj'⟩
+      · rcases hTh.joinC l r d g tag lc rc hpc with ⟨h1, rfl⟩
+        refine ⟨hkeep _ _ (pi.jG i th hth l r d tag lc rc h1), ?_⟩
+        rw [hg]; simp only [stepTh, h1]; exact hins _
+      · exact ⟨hkeep _ _ (pi.jC j w hj' l r d g tag lc rc hpc).1, hkeep _ _ (pi.jC j w hj' l r d g tag lc rc hpc).2⟩
+
+theorem pinv_run (kit : Kit N) (sched : List Nat) :
+    ∀ (c : Cfg N), AInv c.abs → PInv kit c → PInv kit (run kit c sched) := by
+  induction sched with
+  | nil => intro c _ h; exact h
+  | cons i rest ih => intro c h g; exact ih _ (inv_step kit c i h) (pinv_step kit c i h g)
+
+/-! ## the decidable graph check is the graph part of the invariant -/
+
+theorem nodupB_iff (l : List Nat) : nodupB l = true ↔ l.Nodup := by
+  induction l with
+  | nil => simp [nodupB]
+  | cons a t ih => simp [nodupB, ih, List.nodup_cons]
+
+/-! ## reading a source -/
+
+theorem readSource_readOnly {σ R : Type} (ops : SrcOps σ R) (ro : ReadOnly ops) (s : σ) (m : Option Nat) :
+    (readSource ops s m).1 = s ∧ (readSource ops s m).2.map List.flatten = (ops.cloneAny s).2 := by
+  cases m with
+  | none =>
+    simp only [readSource]
+    refine ⟨ro.cloneKeeps s, ?_⟩
+    cases (ops.cloneAny s).2 <;> simp
+  | some p =>
+    simp only [readSource]
+    cases hsp : (ops.split s (clampParts p (ops.len s))).2 with
+    | some parts =>
+      simp only []
+      exact ⟨ro.splitKeeps s _, by rw [ro.splitIsClone s _ parts hsp]; rfl⟩
+    | none =>
+      simp only []
+      rw [ro.splitKeeps s _]
+      refine ⟨ro.cloneKeeps s, ?_⟩
+      cases (ops.cloneAny s).2 <;> simp
+
+theorem chunksGo_flatten {R : Type} (k : Nat) (hk : 0 < k) :
+    ∀ (fuel : Nat) (l : List R), l.length ≤ fuel → (chunksGo fuel k l).flatten = l := by
+  intro fuel
+  induction fuel with
+  | zero => intro l h; have : l = [] := List.length_eq_zero_iff.mp (by omega); subst this; rfl
+  | succ f ih =>
+    intro l h
+    simp only [chunksGo]
+    split
+    · next he => simp at he; subst he; rfl
+    · next he =>
+      have hlen : 0 < l.length := by
+        cases l with
+        | nil => simp at he
+        | cons a t => simp
+      simp only [List.flatten_cons]
+      rw [ih (l.drop k) (by simp; omega)]
+      exact List.take_append_drop k l
 
 end IB.Graph
